@@ -82,7 +82,9 @@ def e1_new_structure(doc, full):
 
 def e2_new_property(doc, full, owners=None):
     out = []
-    owners = owners or [("leaf", LEAF), ("base", BASE), ("mixin", MIXIN), ("params", PARAMS)]
+    owners = owners or [("leaf", LEAF), ("base", BASE), ("mixin", MIXIN), ("params", PARAMS), ("special", "SelectionRange")]
+    if full:
+        owners = owners + [("special-open", "InitializedParams")]
     types = prop_types(full)
     names = ["verifProp", "verifLongerName", "class", "global"]
     combos = []
